@@ -236,6 +236,152 @@ def output_oracle(d, obs):
     return None
 
 
+# ----------------------------------------------------------------------------- the chain as a sample of the posterior (validation)
+
+def _m0():
+    from MTfit.convert import Tape_MT6
+    return np.asarray(Tape_MT6(np.array([0.]), np.array([0.]), np.array([1.0]), np.array([0.6]), np.array([0.3]))).reshape(6, -1)[:, :1]
+
+
+def posterior_reference(M0, S, N, seed):
+    """prior random sampling weighted by the likelihood: uniform double-couples (random orthonormal T, P axes) and uniform unit six-vectors"""
+    rs = np.random.RandomState(seed)
+    t = rs.randn(3, N)
+    t /= np.sqrt((t ** 2).sum(0))
+    p = np.cross(t.T, rs.randn(3, N).T).T
+    p /= np.sqrt((p ** 2).sum(0))
+    r2 = math.sqrt(2)
+    dc = np.array([t[0] * t[0] - p[0] * p[0], t[1] * t[1] - p[1] * p[1], t[2] * t[2] - p[2] * p[2],
+                   r2 * (t[0] * t[1] - p[0] * p[1]), r2 * (t[0] * t[2] - p[0] * p[2]), r2 * (t[1] * t[2] - p[1] * p[2])]) / r2
+    mt = rs.randn(6, N)
+    mt /= np.sqrt((mt ** 2).sum(0))
+
+    def w(m):
+        return np.exp(-np.sum((m - M0) ** 2, axis=0) / (2 * S * S))
+
+    def f(m):
+        return (M0.T.dot(m)).flatten() ** 2
+    wd, wm = w(dc), w(mt)
+    z_dc, z_mt = wd.mean(), wm.mean()
+    f_dc, f_mt = (wd * f(dc)).sum() / wd.sum(), (wm * f(mt)).sum() / wm.sum()
+    return {'z_dc': float(z_dc), 'z_mt': float(z_mt), 'f_dc': float(f_dc), 'f_mt': float(f_mt)}
+
+
+def batch_mean(v, nb=20):
+    v = np.asarray(v, dtype=float)
+    k = len(v) // nb
+    means = v[:k * nb].reshape(nb, k).mean(axis=1)
+    return float(v.mean()), float(means.std(ddof=1) / math.sqrt(nb))
+
+
+def model_odds_scale(alg):
+    """factor by which the jump acceptance of the code scales the full-tensor : double-couple prior odds: (integral of the prior
+    density of the source-type parameters over the lune) / (integral of the balancing density it is divided by); 1 for densities"""
+    xs, ws = np.polynomial.legendre.leggauss(48)
+    ip = iq = 0.0
+    for xg, wg in zip(xs, ws):
+        for xd, wd in zip(xs, ws):
+            st = {'gamma': float(xg * math.pi / 6), 'delta': float(xd * math.pi / 2), 'kappa': 1.0, 'h': 0.5, 'sigma': 0.1}
+            w = wg * wd * (math.pi / 6) * (math.pi / 2)
+            ip += w * float(alg.prior(st))
+            iq += w * float(alg.jump_params(st))
+    return ip / iq
+
+
+def posterior_case(mc, pr, case):
+    """run one chain on a smooth synthetic likelihood exp(-|m - m0|^2 / 2 S^2) and compare expectations of the recorded chain with
+    the likelihood-weighted prior sample; returns (why or None, numbers)"""
+    M0, S = _m0(), case['S']
+    ref = posterior_reference(M0, S, case['n_reference'], 5)
+    np.random.seed(case['numpy_seed'])
+    alg = getattr(mc, case['class'])(learning_length=50, chain_length=case['chain_length'], acceptance_rate_window=20, **case['kwargs'])
+    mts, end = alg.initialise()
+    while not end:
+        L = float(-np.sum((np.asarray(mts, dtype=float).reshape(6, 1) - M0) ** 2) / (2 * S * S))
+        mts, end = alg.iterate({'moment_tensors': mts, 'ln_pdf': pr.LnPDF(np.array([[L]])), 'n': 1})
+    out, _ = alg.output(True, False, 0)
+    M = np.asarray(out['moment_tensor_space'], dtype=float)
+    fm, fse = batch_mean((M0.T.dot(M)).flatten() ** 2)
+    nums = {'chain_entries': int(M.shape[1]), 'E_f_chain': fm, 'E_f_standard_error': fse}
+    if 'TransD' in case['class']:
+        pdc0 = case['kwargs'].get('dc_prior', 0.5)
+        scale = model_odds_scale(alg)
+        nums['full_tensor_model_odds_scale'] = scale
+        odds = pdc0 * ref['z_dc'] / ((1 - pdc0) * ref['z_mt'])
+        nums['pDC_posterior'] = odds / (1 + odds)
+        odds = odds / scale          # what the jump acceptance of the code targets (known finding when scale != 1)
+        want_pdc = odds / (1 + odds)
+        want_f = want_pdc * ref['f_dc'] + (1 - want_pdc) * ref['f_mt']
+        from MTfit.convert import MT6_Tape
+        g, d = [np.asarray(x, dtype=float).flatten() for x in MT6_Tape(M)[:2]]
+        isdc = (np.abs(g) < 1e-9) & (np.abs(d) < 1e-9)
+        pm, pse = batch_mean(isdc.astype(float))
+        nums.update({'pDC_chain': pm, 'pDC_standard_error': pse, 'pDC_reported': float(out['pDC']) / M.shape[1], 'pDC_expected': want_pdc})
+        if abs(nums['pDC_reported'] - pm) > 1e-12:
+            return 'reported double-couple fraction %r is not the share %r of double-couple entries' % (nums['pDC_reported'], pm), nums
+        if abs(pm - want_pdc) > 5 * pse + 0.01:
+            return ('double-couple fraction of the chain %.4f (standard error %.4f) against %.4f from likelihood-weighted prior sampling'
+                    % (pm, pse, want_pdc)), nums
+        # within each model
+        for name, sel, want in (('double-couple', isdc, ref['f_dc']), ('full-tensor', ~isdc, ref['f_mt'])):
+            if sel.sum() > 2000:
+                vm, vse = batch_mean(((M0.T.dot(M)).flatten() ** 2)[sel])
+                nums['E_f_%s_entries' % name] = vm
+                if abs(vm - want) > 5 * vse + 0.01:
+                    return ('expectation of (m.m0)^2 over the %s entries %.4f (standard error %.4f) against %.4f from likelihood-weighted '
+                            'prior sampling of that model' % (name, vm, vse, want)), nums
+    else:
+        want_f = ref['f_dc'] if case['kwargs'].get('dc') else ref['f_mt']
+    nums['E_f_expected'] = want_f
+    if abs(fm - want_f) > 5 * fse + 0.01:
+        return ('chain expectation of (m.m0)^2 %.4f (standard error %.4f) against %.4f from likelihood-weighted prior sampling'
+                % (fm, fse, want_f)), nums
+    return None, nums
+
+
+def posterior_validation(R, mc, pr):
+    n = R.n(20000, 80000)
+    cases = [{'class': 'IterativeTransDMetropolisHastingsGaussianTape', 'kwargs': {'dimension_jump_prob': 0.5}, 'S': 0.6},
+             {'class': 'IterativeMetropolisHastingsGaussianTape', 'kwargs': {'dc': True}, 'S': 0.6}]
+    if R.thorough:
+        cases += [{'class': 'IterativeTransDMetropolisHastingsGaussianTape', 'kwargs': {'dimension_jump_prob': 0.1, 'dc_prior': 0.3}, 'S': 0.6},
+                  {'class': 'IterativeTransDMetropolisHastingsGaussianTape', 'kwargs': {'dimension_jump_prob': 0.3, 'gaussian_jump_params': False}, 'S': 0.6},
+                  {'class': 'IterativeTransDMetropolisHastingsGaussianTape', 'kwargs': {'dimension_jump_prob': 0.3}, 'S': 0.3},
+                  {'class': 'IterativeMetropolisHastingsGaussianTape', 'kwargs': {}, 'S': 0.6},
+                  {'class': 'IterativeMetropolisHastingsGaussianTape', 'kwargs': {}, 'S': 0.3}]
+    bad = None
+    table = []
+    for i, c in enumerate(cases):
+        case = dict(c, chain_length=n, n_reference=300000, numpy_seed=R.rng.randrange(2 ** 31), check='posterior')
+        R.count(('posterior', i))
+        try:
+            why, nums = posterior_case(mc, pr, case)
+        except Exception as ex:
+            why, nums = 'chain run raised %s: %s' % (type(ex).__name__, ex), {}
+        table.append(dict(case, **nums))
+        if why and bad is None:
+            bad = dict(case, why=why, numbers=nums)
+    R.cov['posterior_validation'] = table
+    # the model odds a trans-dimensional chain targets (deterministic: quadrature of the code's own densities)
+    scales = {}
+    for gauss in (True, False):
+        for prior in ('uniform_prior', 'flat_prior'):
+            alg = mc.IterativeTransDMetropolisHastingsGaussianTape(learning_length=10, chain_length=10, initial_sample='none', sampling_prior=prior,
+                                                                   gaussian_jump_params=gauss)
+            scales['%s/%s' % ('gaussian' if gauss else 'uniform', prior)] = round(model_odds_scale(alg), 6)
+    R.cov['full_tensor_model_odds_scale'] = scales
+    if any(abs(v - 1) > 1e-4 for v in scales.values()):
+        what = ('the double-couple fraction of a trans-dimensional chain is not the posterior model probability: the jump acceptance divides a '
+                'source-type prior that integrates to %.4f over the lune (uniform_prior carries a constant 1.1045) by a balancing density '
+                'that integrates to %.4f (Gaussian draw) or %.4f (uniform draw), so the full-tensor : double-couple odds are scaled by '
+                '%.4f / %.4f (e.g. pDC 0.506 instead of 0.526, 0.61 with the uniform draw, for the broad test posterior); within-model '
+                'expectations are unaffected; the constants are pinned by test_acceptance and mirrored in the Cython kernels'
+                % (scales['gaussian/uniform_prior'] * 1.020196, 1.020196, math.pi / 2, scales['gaussian/uniform_prior'], scales['uniform/uniform_prior']))
+        if not R.known_finding('transd_model_odds_scaled', what) and bad is None:
+            bad = {'check': 'posterior', 'why': 'the model odds targeted by the jump acceptance are scaled: %r' % scales, 'scales': scales}
+    return bad
+
+
 CONFIGS = [('IterativeMetropolisHastingsGaussianTape', {}), ('IterativeMetropolisHastingsGaussianTape', {'dc': True}),
            ('IterativeTransDMetropolisHastingsGaussianTape', {'dimension_jump_prob': 0.3}),
            ('IterativeMultipleTryMetropolisHastingsGaussianTape', {'number_samples': 5})]
@@ -245,7 +391,8 @@ def run(R):
     mc, pr, inv = _impl()
     proved = R.prove()
     R.assumptions += ['"samples the posterior" = detailed balance (C05) + stationarity theorem (finite state space) + assumed ergodicity and '
-                      'generator law; the statistical comparison with importance sampling is a thorough-tier validation, not a theorem',
+                      'generator law; the statistical comparison with likelihood-weighted prior sampling (both tiers, fixed numpy seeds, '
+                      'alarm at 6 batch-means standard errors + 0.02) is a validation, not a theorem',
                       'accept/reject decisions are inputs of the model; the harness steers numpy.random.rand inside _acceptance_check and reads '
                       'the decision actually taken from the object identity of the current state',
                       'multiple-try batches are not produced on the pure-Python path (one proposal per iteration), so the multiple-try scan is '
@@ -329,6 +476,9 @@ def run(R):
                     out['total_number_samples'], n_ent, out['accepted'], cl), 'kwargs': kwargs}
         except Exception as e:
             bad = bad or {'check': 'McMCForwardTask raised %s: %s' % (type(e).__name__, e), 'kwargs': kwargs}
+    pb = posterior_validation(R, mc, pr)
+    if pb and bad is None:
+        bad = dict(pb, check='the recorded chain is not a sample of the posterior: ' + pb['why'])
     if bad:
         R.violation('chain run: %s' % bad['check'], bad)
     R.cov['rule'] = ('accept/reject strings up to length %d (all of them, sampled down to the tier size) x learning lengths {0,1,3} x windows {1,2,5} x '
@@ -338,5 +488,12 @@ def run(R):
 
 
 def replay(R, body):
-    print(body['replay'])
+    rp = body['replay']
+    if 'numpy_seed' in rp and 'chain_length' in rp:
+        mc, pr, inv = _impl()
+        why, nums = posterior_case(mc, pr, rp)
+        print(nums)
+        print('oracle:', why or 'holds')
+        return 1 if why else 0
+    print(rp)
     return 0
